@@ -4,10 +4,11 @@ import exprlib
 META = {
     'functions': ['qbe.c:funcexpr', 'qbe.c:convert', 'qbe.c:funcinst', 'qbe.c:mkinst', 'qbe.c:qbetype', 'qbe.c:mkintconst', 'qbe.c:mkfltconst', 'qbe.c:funcjnz',
                   'qbe.c:funclabel', 'qbe.c:mkblock', 'qbe.c:funcbits', 'qbe.c:funcstore', 'qbe.c:funcload', 'qbe.c:funccopy', 'qbe.c:zero', 'qbe.c:funcalloc', 'expr.c:mkbinaryexpr', 'expr.c:exprconvert', 'type.c:typecommonreal'],
-    'bounds': {'select': 'operator x (left type, right type) concrete, operand values fully symbolic; emitted IL executed by an IL semantics == C value',
+    'bounds': {'tv': 'corpus functions parsed and lowered by the real front end, all argument values / pointed-to bytes symbolic, loops <= 3 iterations',
+               'select': 'operator x (left type, right type) concrete, operand values fully symbolic; emitted IL executed by an IL semantics == C value',
                'cast': 'all 14x14 conversions'},
     'stubs': ['error()/fatal() end the path', 'xmalloc never NULL', 'realloc = typed pool for instruction arrays (growth cut)'],
-    'outside': ['programs as a whole (this family checks instruction selection per operator)', 'float * and / values (operand routing only)', 'long double',
+    'outside': ['programs outside the tv corpus (22 functions: control flow, arrays, pointers, bit-fields, struct copy, side effects); calls, variadics, VLAs, alloca', 'float * and / values (operand routing only)', 'long double',
                 'unspecified evaluation order', 'QBE -> machine code'],
 }
 
@@ -29,7 +30,7 @@ def mem_instances(tier, fam='mem', safety=False):
         for (b, w) in combos:
             for sgn in (0, 1):
                 L.append(Inst('%s.bitfield.%s%d.b%d.w%d' % (fam, 's' if sgn else 'u', bits, b, w), 'h_mem.c', {'MODE': 1, 'USZ': usz, 'SGN': sgn, 'BEFORE': b, 'WIDTH': w},
-                              family=fam + '.bitfield', unwindset=['il_run.0:20', 'il_is_stop.0:14'],
+                              family=fam + '.bitfield', unwindset=['il_run.0:20', 'il_is_stop.0:14', 'il_run.1:70'],
                               bound={'unit_bytes': usz, 'signed': bool(sgn), 'before': b, 'width': w, 'value/old contents': 'symbolic'}, **common))
     for al in (1, 2, 4, 8, 16):
         step = min(al, 8)
@@ -38,7 +39,7 @@ def mem_instances(tier, fam='mem', safety=False):
             sizes = [n for n in sizes if n <= 4 * step or n in (24, 32)]
         for n in sizes:
             L.append(Inst('%s.copy.align%d.size%d' % (fam, al, n), 'h_mem.c', {'MODE': 2, 'ALIGN': al, 'SIZE': n}, family=fam + '.copy',
-                          unwindset=['il_run.0:%d' % (4 * n // step + 6), 'il_is_stop.0:14', 'main.0:50', 'main.1:50', 'main.2:50', 'main.3:50', 'funccopy.0:%d' % (n // step + 2)],
+                          unwindset=['il_run.0:%d' % (4 * n // step + 6), 'il_is_stop.0:14', 'il_run.1:70', 'main.0:50', 'main.1:50', 'main.2:50', 'main.3:50', 'funccopy.0:%d' % (n // step + 2)],
                           bound={'align': al, 'size': n, 'contents': 'symbolic'}, **common))
         ends = range(0, 9) if tier == 'quick' else range(0, 17)
         for e in ends:
@@ -46,10 +47,10 @@ def mem_instances(tier, fam='mem', safety=False):
                 if tier == 'quick' and al in (2, 16) and (o + e) % 2:
                     continue
                 L.append(Inst('%s.zero.align%d.o%d.e%d' % (fam, al, o, e), 'h_mem.c', {'MODE': 3, 'ALIGN': al, 'OFF': o, 'END': e}, family=fam + '.zero',
-                              unwindset=['il_run.0:%d' % (2 * (e - o) + 6), 'il_is_stop.0:14', 'main.0:50', 'main.1:50', 'main.2:50', 'zero.0:%d' % (e - o + 8)],
+                              unwindset=['il_run.0:%d' % (2 * (e - o) + 6), 'il_is_stop.0:14', 'il_run.1:70', 'main.0:50', 'main.1:50', 'main.2:50', 'zero.0:%d' % (e - o + 8)],
                               bound={'align': al, 'gap': [o, e], 'previous contents': 'symbolic'}, **common))
     for al in (1, 2, 4, 8, 16, 32, 64):
-        L.append(Inst('%s.alloc.align%d' % (fam, al), 'h_mem.c', {'MODE': 4, 'ALIGN': al}, family=fam + '.alloc', unwindset=['il_run.0:10', 'il_is_stop.0:14'], backends=['sat', 'z3'],
+        L.append(Inst('%s.alloc.align%d' % (fam, al), 'h_mem.c', {'MODE': 4, 'ALIGN': al}, family=fam + '.alloc', unwindset=['il_run.0:10', 'il_is_stop.0:14', 'il_run.1:70'], backends=['sat', 'z3'],
                       bound={'align': al, 'size': 'symbolic', 'stack address': 'symbolic'}, **common))
     return L
 
@@ -61,4 +62,6 @@ def instances(build, tier, seed):
     L += mem_instances(tier)
     import c07
     L += c07.funcinit_instances(tier, fam='mem.autoinit')      # automatic-object initialisation (shared with C07)
+    import tvcorpus
+    L += tvcorpus.corpus_instances(tier)                       # whole functions through the real parser and lowering (in-memory translation validation)
     return L
